@@ -148,12 +148,18 @@ Section Frame.
   Qed.
   Lemma R_sub_poll c w q H q' H' : sub_poll c w q H = (q', H') -> R H H'.
   Proof.
-    unfold sub_poll. destruct q as [sent dead tg v ch|m]; [|intros E; inversion E; subst; apply R_refl].
-    destruct (req_poll c w sent dead tg v ch H) as [[[o s'] d'] H1] eqn:E1. apply R_req_poll in E1.
-    destruct o; intros E; inversion E; subst; exact E1.
+    unfold sub_poll. destruct q as [sent dead tg v ch|m|sent tg v ch].
+    - destruct (req_poll c w sent dead tg v ch H) as [[[o s'] d'] H1] eqn:E1. apply R_req_poll in E1.
+      destruct o; intros E; inversion E; subst; exact E1.
+    - intros E; inversion E; subst; apply R_refl.
+    - set (H1 := if sent then H else push_hout (mkEff tg v [] (RLegacy ch)) H).
+      assert (R1 : R H H1) by (subst H1; destruct sent; [apply R_refl | apply R_push_hout]).
+      destruct (ch_buf (gch ch H1)); intros E; inversion E; subst.
+      + eapply R_trans; [exact R1 | apply R_chan_reg].
+      + eapply R_trans; [exact R1 | apply R_chan_drop_rx].
   Qed.
   Lemma R_sub_drop q H : R H (sub_drop q H).
-  Proof. unfold sub_drop. destruct q as [sent dead tg v ch|m]; [|apply R_refl]. destruct dead; [apply R_refl | apply R_chan_drop_rx]. Qed.
+  Proof. unfold sub_drop. destruct q as [sent dead tg v ch|m|sent tg v ch]; [|apply R_refl|apply R_chan_drop_rx]. destruct dead; [apply R_refl | apply R_chan_drop_rx]. Qed.
 
   Lemma R_drop : forall fuel,
     (forall fs H, R H (drop_fs fuel fs H)) /\ (forall cid H, R H (drop_cmd fuel cid H)).
@@ -237,6 +243,9 @@ Section Frame.
         * destruct (new_chan H) as [ch1 H1] eqn:E1. destruct (new_chan H1) as [ch2 H2] eqn:E2.
           apply R_new_chan in E1. apply R_new_chan in E2. apply IHp in E.
           eapply R_trans; [exact E1|]. eapply R_trans; eassumption.
+        * destruct (new_chan H) as [ch1 H1] eqn:E1. destruct (new_chan H1) as [ch2 H2] eqn:E2.
+          apply R_new_chan in E1. apply R_new_chan in E2. apply IHp in E.
+          eapply R_trans; [exact E1|]. eapply R_trans; eassumption.
         * destruct (new_cmd names (Some (c_epoch (gcmd c H))) (f_env fs) t1 extra H) as [cid H1] eqn:E1.
           apply R_new_cmd in E1. apply IHp in E. eapply R_trans; eassumption.
       + (* LReq *)
@@ -275,17 +284,19 @@ Section Frame.
         destruct (sub_poll c w qa H) as [a' H1] eqn:E1. destruct (sub_poll c w qb H1) as [b' H2] eqn:E2.
         apply R_sub_poll in E1. apply R_sub_poll in E2.
         assert (R02 : R H H2) by (eapply R_trans; eassumption).
-        destruct a'; [inversion E; subst; exact R02|].
-        destruct b'; [inversion E; subst; exact R02|].
+        destruct a'; try (inversion E; subst; exact R02).
+        destruct b'; try (inversion E; subst; exact R02).
         apply IHp in E. eapply R_trans; eassumption.
       + (* LRace *)
         destruct (sub_poll c w qa H) as [a' H1] eqn:E1. apply R_sub_poll in E1.
         destruct a'.
         * destruct (sub_poll c w qb H1) as [b' H2] eqn:E2. apply R_sub_poll in E2.
-          destruct b'.
-          -- inversion E; subst. eapply R_trans; eassumption.
-          -- apply IHp in E. eapply R_trans; [exact E1|]. eapply R_trans; [exact E2|]. eapply R_trans; [|exact E]. apply R_sub_drop.
+          destruct b'; try (inversion E; subst; eapply R_trans; eassumption).
+          apply IHp in E. eapply R_trans; [exact E1|]. eapply R_trans; [exact E2|]. eapply R_trans; [|exact E]. apply R_sub_drop.
         * apply IHp in E. eapply R_trans; [exact E1|]. eapply R_trans; [|exact E]. apply R_sub_drop.
+        * destruct (sub_poll c w qb H1) as [b' H2] eqn:E2. apply R_sub_poll in E2.
+          destruct b'; try (inversion E; subst; eapply R_trans; eassumption).
+          apply IHp in E. eapply R_trans; [exact E1|]. eapply R_trans; [exact E2|]. eapply R_trans; [|exact E]. apply R_sub_drop.
     - (* poll_next *)
       intros cid w H r H' E. cbn [step_funs rpoll_next] in E. unfold poll_next_body in E.
       destruct (rsettle F cid (ucmd cid (set_atomic (Some w)) H)) as [H1|] eqn:E1; [|discriminate].
